@@ -22,6 +22,8 @@ Link ==
                   : i \in {i \in ran : us[i].finished /\ us[i].usedAbmf # -1 /\ us[i].usedAbmf \notin ToSet(us[i].own.abmf)}}
           \cup {V("C19", "answer_matches_request", [iface |-> "rating", misbehaving |-> Ev.iface, fate_before |-> prior(i)])
                   : i \in {i \in ran : us[i].finished /\ us[i].usedRating >= 0 /\ us[i].usedRating \notin ToSet(us[i].own.rating)}}
+          \cup {V("C19", "answer_matches_request", [iface |-> "rating-tariff", misbehaving |-> Ev.iface, fate_before |-> prior(i)])
+                  : i \in {i \in ran : us[i].finished /\ us[i].usedCost >= 0 /\ us[i].usedCost \notin ToSet(us[i].own.rating)}}
           \cup {V("C19", "request_fails_cleanly", [iface |-> Ev.iface, status |-> us[i].status]) : i \in {i \in ran : us[i].finished /\ us[i].status # 200}}
   /\ div' = div
 Leak ==
